@@ -47,6 +47,7 @@ func __in(x any, s any) bool { return true }
 func __div(a, b int) int { return 0 }
 func __mod(a, b int) int { return 0 }
 func __enum(s any, m any, f any) bool { return true }
+func __enumlemma(s any, m any, p any, q any, pq any) bool { return true }
 
 // gmap: a mathematical (ghost) finite map; values of this type are not heap objects.
 type gmap[K comparable, V any] map[K]V
